@@ -18,24 +18,33 @@ import (
 	"github.com/dappledger/AnnChain/gemmill/p2p"
 )
 
-var msgSizes = []int{0, 1, 1023, 1024, 1025, 2048, 4096, 4097}
+// msgSizes: lengths of the byte strings handed to the channel (= the encoded
+// size of the message: MConnection.Send passes wire.BinaryBytes(msg)).  Around
+// every multiple k of the packet payload (1024) up to the capacity: k*1024-1,
+// k*1024, k*1024+1 (k = 1, 2, 3), the capacity itself and capacity+1.
+var msgSizes = []int{0, 1, 1023, 1024, 1025, 2047, 2048, 2049, 3071, 3072, 3073, 4096, 4097}
 
 const (
 	chanSendQueueCap = 2
 	chanRecvMsgCap   = 4096
-	nSendOps         = 16 // op = ch*8 + size index
-	opPump0          = 16
-	opPump1          = 17
-	opPoll0          = 18
-	opPoll1          = 19
-	opDeliver        = 20
-	nChanOps         = 21
+)
+
+// op = ch*nSizes + size index for the sends, then the five others
+var (
+	nSizes    = len(msgSizes)
+	nSendOps  = 2 * nSizes
+	opPump0   = nSendOps
+	opPump1   = nSendOps + 1
+	opPoll0   = nSendOps + 2
+	opPoll1   = nSendOps + 3
+	opDeliver = nSendOps + 4
+	nChanOps  = nSendOps + 5
 )
 
 func opName(op int) string {
 	switch {
 	case op < nSendOps:
-		return fmt.Sprintf("send(ch%d,%d)", op/8, msgSizes[op%8])
+		return fmt.Sprintf("send(ch%d,%d)", op/nSizes, msgSizes[op%nSizes])
 	case op == opPump0 || op == opPump1:
 		return fmt.Sprintf("pump(ch%d)", op-opPump0)
 	case op == opPoll0 || op == opPoll1:
@@ -71,6 +80,14 @@ func sizeClass(n int) string {
 	return "small"
 }
 
+// shapeClass: is the (encoded) size a whole number of packet payloads?
+func shapeClass(n int) string {
+	if n > 0 && n%p2p.VerifMaxMsgPacketPayloadSize == 0 {
+		return "size-multiple-of-packet-payload"
+	}
+	return "size-not-multiple-of-packet-payload"
+}
+
 // shadow of the mechanism (only used to name states for deduplication)
 type shCh struct {
 	q       []int
@@ -102,6 +119,7 @@ type chanInst struct {
 type chanViolation struct {
 	kind, size, detail, site string
 	chp1                     int // channel concerned + 1 (0 = unknown)
+	bytes                    int // size of the message concerned (-1 = unknown)
 }
 
 func newChanInst() *chanInst {
@@ -217,9 +235,9 @@ func chIndex(id byte) int { return int(id) - 0x20 }
 func (in *chanInst) apply(op int) (obs string, viol *chanViolation) {
 	switch {
 	case op < nSendOps:
-		ch, size := op/8, msgSizes[op%8]
+		ch, size := op/nSizes, msgSizes[op%nSizes]
 		seq := in.nextSeq[ch]
-		keep := chanMsg(ch, seq, op%8)
+		keep := chanMsg(ch, seq, op%nSizes)
 		msg := keep
 		var ok bool
 		if in.blocking && len(in.sh[ch].q) < chanSendQueueCap {
@@ -302,7 +320,7 @@ func (in *chanInst) apply(op int) (obs string, viol *chanViolation) {
 		if err != nil {
 			in.dead = true
 			if !oversize {
-				return "", &chanViolation{chp1: ch + 1, kind: "error-on-legit-message", size: cls, detail: fmt.Sprintf("recvMsgPacket returned %v while reassembling a %d-byte message (capacity %d)", err, len(head.data), chanRecvMsgCap)}
+				return "", &chanViolation{chp1: ch + 1, bytes: len(head.data), kind: "error-on-legit-message", size: cls, detail: fmt.Sprintf("recvMsgPacket returned %v while reassembling a %d-byte message (capacity %d)", err, len(head.data), chanRecvMsgCap)}
 			}
 			return "deliver/overflow-error", nil
 		}
@@ -321,10 +339,10 @@ func (in *chanInst) apply(op int) (obs string, viol *chanViolation) {
 			case len(in.pending[ch]) > 0 && bytes.Equal(got, in.pending[ch][0].data):
 				kind = "order"
 			}
-			return "", &chanViolation{chp1: ch + 1, kind: kind, size: cls, detail: fmt.Sprintf("channel %d: delivered %d bytes, the oldest outstanding message (#%d) has %d bytes", ch, len(got), head.seq, len(head.data))}
+			return "", &chanViolation{chp1: ch + 1, bytes: len(head.data), kind: kind, size: cls, detail: fmt.Sprintf("channel %d: delivered %d bytes, the oldest outstanding message (#%d) has %d bytes", ch, len(got), head.seq, len(head.data))}
 		}
 		if oversize {
-			return "", &chanViolation{chp1: ch + 1, kind: "oversize-delivered", size: cls, detail: fmt.Sprintf("a %d-byte message was delivered through a channel with receive capacity %d", len(got), chanRecvMsgCap)}
+			return "", &chanViolation{chp1: ch + 1, bytes: len(head.data), kind: "oversize-delivered", size: cls, detail: fmt.Sprintf("a %d-byte message was delivered through a channel with receive capacity %d", len(got), chanRecvMsgCap)}
 		}
 		return "deliver/complete/" + cls, nil
 	}
@@ -376,7 +394,7 @@ func (in *chanInst) drain() *chanViolation {
 	for ch := 0; ch < 2; ch++ {
 		if len(in.pending[ch]) > 0 {
 			m := in.pending[ch][0]
-			return &chanViolation{chp1: ch + 1, kind: "message-lost", size: sizeClass(len(m.data)), detail: fmt.Sprintf("channel %d: message #%d (%d bytes) was accepted for sending but never arrives although everything was pumped and delivered (%d outstanding)", ch, m.seq, len(m.data), len(in.pending[ch]))}
+			return &chanViolation{chp1: ch + 1, bytes: len(m.data), kind: "message-lost", size: sizeClass(len(m.data)), detail: fmt.Sprintf("channel %d: message #%d (%d bytes) was accepted for sending but never arrives although everything was pumped and delivered (%d outstanding)", ch, m.seq, len(m.data), len(in.pending[ch]))}
 		}
 	}
 	return nil
@@ -417,6 +435,9 @@ func (c *ctx) chanReport(in *chanInst, ops []int, v *chanViolation) {
 		v = &chanViolation{chp1: v.chp1, kind: "message-lost", size: "zero", detail: "[" + v.kind + "] " + v.detail}
 	}
 	sig := map[string]string{"part": "channel", "kind": v.kind, "size": v.size}
+	if v.size != "any" && !normalized {
+		sig["shape"] = shapeClass(v.bytes)
+	}
 	if v.site != "" {
 		sig["site"] = v.site
 	}
@@ -445,6 +466,25 @@ type chanStats struct {
 	perDepth                    []int
 	maxDepth                    int
 	violating                   int64
+	// overlap: states that the exploration given as "also" had found too
+	overlap int64
+	seen    []*chanShard
+}
+
+const chanShards = 64
+
+type chanShard struct {
+	mu sync.Mutex
+	m  map[[16]byte]struct{}
+}
+
+func (st *chanStats) has(k [16]byte) bool {
+	if st == nil || st.seen == nil {
+		return false
+	}
+	sh := st.seen[k[0]%chanShards]
+	_, ok := sh.m[k] // only called when the exploration that owns st is over
+	return ok
 }
 
 // exploreChan: breadth-first over operation histories with state
@@ -454,27 +494,54 @@ type chanStats struct {
 // are a function of (channel, sequence number, size) and do not influence
 // control flow, so two histories reaching the same named state have the same
 // futures up to renaming of contents.
-func (c *ctx) exploreChan(maxDepth int, deadline time.Time, progress func(string)) chanStats {
-	var st chanStats
+func (c *ctx) exploreChan(name string, maxDepth int, alphabet []int, also *chanStats, deadline time.Time, growth float64, progress func(string)) *chanStats {
+	stp := &chanStats{}
+	c.cov.mu.Lock()
+	c.cov.chans = append(c.cov.chans, stp)
+	c.cov.mu.Unlock()
+	return c.exploreChanInto(stp, name, maxDepth, alphabet, also, deadline, growth, progress)
+}
+
+// chanAlphabet: the operations with the given message sizes on both channels + the five others.
+func chanAlphabet(sizes []int) []int {
+	var ops []int
+	for ch := 0; ch < 2; ch++ {
+		for i, s := range msgSizes {
+			for _, w := range sizes {
+				if s == w {
+					ops = append(ops, ch*nSizes+i)
+				}
+			}
+		}
+	}
+	for op := nSendOps; op < nChanOps; op++ {
+		ops = append(ops, op)
+	}
+	return ops
+}
+
+func (c *ctx) exploreChanInto(stp *chanStats, name string, maxDepth int, alphabet []int, also *chanStats, deadline time.Time, growth float64, progress func(string)) *chanStats {
+	st := chanStats{}
+	defer func() { *stp = st }()
 	var lastLevel time.Duration
-	const shards = 64
-	type shard struct {
-		mu sync.Mutex
-		m  map[[16]byte]struct{}
-	}
-	seen := make([]*shard, shards)
+	const shards = chanShards
+	seen := make([]*chanShard, shards)
 	for i := range seen {
-		seen[i] = &shard{m: map[[16]byte]struct{}{}}
+		seen[i] = &chanShard{m: map[[16]byte]struct{}{}}
 	}
+	st.seen = seen
 	root := newChanInst()
 	rk := root.key()
 	seen[rk[0]%shards].m[rk] = struct{}{}
 	st.states = 1
+	if also.has(rk) {
+		st.overlap = 1
+	}
 	frontier := [][]byte{{}}
 	for depth := 1; depth <= maxDepth; depth++ {
-		// a level takes about 5.5x the time of the previous one; a level that
+		// a level takes about growth x the time of the previous one; a level that
 		// nevertheless runs past the deadline is abandoned (and not counted)
-		if !deadline.IsZero() && depth > 6 && time.Now().Add(lastLevel*11/2).After(deadline) {
+		if !deadline.IsZero() && depth > 5 && time.Now().Add(time.Duration(float64(lastLevel)*growth)).After(deadline) {
 			break
 		}
 		levelStart := time.Now()
@@ -489,7 +556,7 @@ func (c *ctx) exploreChan(maxDepth int, deadline time.Time, progress func(string
 			next[i] = &nxt{m: map[[16]byte][]byte{}}
 		}
 		core.Par(len(frontier), func(i int) {
-			if !deadline.IsZero() && depth > 6 && (atomic.LoadInt32(&aborted) != 0 || time.Now().After(deadline.Add(30*time.Second))) {
+			if !deadline.IsZero() && depth > 5 && (atomic.LoadInt32(&aborted) != 0 || time.Now().After(deadline.Add(30*time.Second))) {
 				atomic.StoreInt32(&aborted, 1)
 				return
 			}
@@ -510,7 +577,9 @@ func (c *ctx) exploreChan(maxDepth int, deadline time.Time, progress func(string
 			var cur *chanInst
 			var trail []int
 			var parentKey [16]byte
-			for op := 0; op < nChanOps; op++ {
+			fl := c.begin(kase{Part: "chan", Ops: ops[:len(h)]}, map[string]string{"part": "channel"})
+			defer c.end(fl)
+			for _, op := range alphabet {
 				if cur == nil {
 					var v0 *chanViolation
 					cur, _, v0, _ = runChanOps(ops[:len(h)])
@@ -523,6 +592,7 @@ func (c *ctx) exploreChan(maxDepth int, deadline time.Time, progress func(string
 				in := cur
 				ops[len(h)] = op
 				trail = append(trail, op)
+				fl.at(kase{Part: "chan", Ops: trail})
 				in.blocking = len(ops) <= 4
 				var obs string
 				var v *chanViolation
@@ -575,6 +645,9 @@ func (c *ctx) exploreChan(maxDepth int, deadline time.Time, progress func(string
 							if _, dup := sh.m[k]; !dup {
 								sh.m[k] = struct{}{}
 								atomic.AddInt64(&st.states, 1)
+								if also.has(k) {
+									atomic.AddInt64(&st.overlap, 1)
+								}
 							}
 							sh.mu.Unlock()
 							continue
@@ -607,6 +680,9 @@ func (c *ctx) exploreChan(maxDepth int, deadline time.Time, progress func(string
 			for k, h := range next[i].m {
 				seen[i].m[k] = struct{}{}
 				frontier = append(frontier, h)
+				if also.has(k) {
+					st.overlap++
+				}
 			}
 		}
 		sort.Slice(frontier, func(a, b int) bool { return bytes.Compare(frontier[a], frontier[b]) < 0 })
@@ -625,5 +701,5 @@ func (c *ctx) exploreChan(maxDepth int, deadline time.Time, progress func(string
 			c.samples.Add(kase{Part: "chan", Ops: ops})
 		}
 	}
-	return st
+	return stp
 }
